@@ -833,8 +833,13 @@ impl Curve2 {
     /// Gets the curvature of three points as turning angle per unit length, found by the reciprocal
     /// of the radius of the circle.
     pub fn get_curvature(&self, i0: usize, i1: usize, i2: usize) -> f64 {
-        if let Ok(circle) = Circle2::from_3_points(self.vtx(i0), self.vtx(i1), self.vtx(i2)) {
-            1.0 / circle.r()
+        // Menger curvature 4 * area / (|ab| |bc| |ca|): scale-free, unlike the absolute collinearity threshold of
+        // Circle2::from_3_points (which reports closely spaced vertices of a small arc as collinear)
+        let (a, b, c) = (self.vtx(i0), self.vtx(i1), self.vtx(i2));
+        let cross = (b.x - a.x) * (c.y - a.y) - (b.y - a.y) * (c.x - a.x);
+        let den = dist(&a, &b) * dist(&b, &c) * dist(&c, &a);
+        if den > 0.0 {
+            2.0 * cross.abs() / den
         } else {
             0.0
         }
